@@ -220,6 +220,42 @@ theorem c03_filestoreGet (w : World) (c : Cid) :
   have : fmGet w c = .ok b := by simpa [filestoreGet, h] using hg
   exact (c03_filestore_sound w c b this).1
 
+/-- **The unverified queries are unverified (as documented).** `Has`/`GetSize` of the FileManager
+answer from the reference alone: there are worlds in which they succeed although `Get` reports the
+reference as corrupt — so callers must not take them as evidence that the data is retrievable. What
+they do guarantee: `Has = true` / a size exactly when a reference entry is stored, and the size is
+the recorded one. -/
+theorem c03_has_getsize_unverified (w : World) (c : Cid) (d : DataObj) (hr : w.refs c.mh = .ref d) :
+    fmHas w c = .bool true ∧ fmGetSize w c = .size d.size ∧
+    (isURL d.path = false → w.allowFiles = true → w.fs (absPath w.root d.path) = .missing →
+      fmGet w c = .fileNotFound) := by
+  refine ⟨by simp [fmHas, hr], by simp [fmGetSize, hr], fun hu ha hm => ?_⟩
+  simp [fmGet, hr, hu, readFileDataObj, ha, hm]
+
+/-- when `Get` succeeds, `GetSize` agrees with the length of the returned bytes for file references
+whose region lies inside the file (sizes recorded by `Put` are the block's length) -/
+theorem c03_getsize_consistent (w : World) (c : Cid) (b : Bytes) (h : fmGet w c = .ok b) :
+    ∃ d, w.refs c.mh = .ref d ∧ fmGetSize w c = .size d.size ∧ b.length ≤ d.size := by
+  obtain ⟨_, d, hr, hu, hf⟩ := c03_filestore_sound w c b h
+  refine ⟨d, hr, by simp [fmGetSize, hr], ?_⟩
+  cases hurl : isURL d.path with
+  | true =>
+    obtain ⟨_, st, body, _, hb⟩ := hu hurl
+    rw [hb]; simp [List.length_take]; omega
+  | false =>
+    obtain ⟨_, h' | h'⟩ := hf hurl
+    · obtain ⟨data, _, hb, _⟩ := h'
+      rw [hb]; simp [slice, List.length_take]; omega
+    · rw [h'.2.2]; simp
+
+/-- `Filestore.Put` dispatch: nothing is written when `Has` already answers true; a
+`*posinfo.FilestoreNode` goes to the FileManager, anything else to the main blockstore -/
+theorem c03_put_dispatch (w : World) (c : Cid) (node : Bool) :
+    (filestoreHas w c = .bool true → filestorePutTarget w c node = .skip) ∧
+    (filestoreHas w c = .bool false →
+      filestorePutTarget w c node = if node then .fileManager else .blockstore) := by
+  constructor <;> intro h <;> simp [filestorePutTarget, h]
+
 /-! Non-vacuity: a world with a toy hash (`H data = [sum of bytes mod 256]`), a 5-byte file and a
 reference to its middle 3 bytes; then the file shrinks / a byte flips. -/
 section Examples
